@@ -47,6 +47,7 @@ type RSFault struct {
 	ForMs  int    `json:"for_ms"`
 	DownMs int    `json:"down_ms"`
 	Group  uint   `json:"group,omitempty"` // split: bit i set = member i is on the far side
+	AfterAck int  `json:"after_ack,omitempty"` // kill_leader: >0 = wait for the next quorum-acknowledged lock, then that many ms minus one
 }
 
 // RSRogue: a client request sent to an arbitrary member, whatever its state at that moment (C10).
@@ -112,7 +113,35 @@ func genReplset(prop string, seed uint64, tier string) *Scenario {
 				body.Members[i].Arbiter, body.Members[i].Weight = 1, 0
 			}
 		}
-		if sp.Intn(3) == 0 {
+		if n >= 4 && sp.Intn(5) == 0 {
+			// stale electable members: two data members of weight 0 stay with the first leader (they
+			// acknowledge its locks), the members that can be elected are cut off from it and fall
+			// behind; the leader is killed during the split and stays down while the rest elects
+			for i := 1; i < n; i++ {
+				body.Members[i].Arbiter, body.Members[i].Weight = 0, uint32(1+sp.Intn(3))
+			}
+			body.Members[1].Weight, body.Members[2].Weight = 0, 0
+			g := uint(0)
+			for i := 3; i < n; i++ {
+				g |= 1 << uint(i)
+			}
+			t1 := 2500 + sp.Intn(6000)
+			kill := t1 + 100 + sp.Intn(1500)
+			if sp.Intn(3) == 0 {
+				kill = t1 + 1500 + sp.Intn(4000)
+			}
+			heal := kill + 2500 + sp.Intn(4000)
+			body.Faults = []RSFault{
+				{Kind: "split", AtMs: t1, ForMs: heal - t1, Group: g},
+				// right after an acknowledged lock: nobody has heard of the new log position yet
+				{Kind: "kill_leader", AtMs: kill, DownMs: heal - kill + 8000 + sp.Intn(8000), AfterAck: 1 + sp.Intn(30)},
+			}
+			for i := range body.Ops {
+				if body.Ops[i].DelayMs > 700 {
+					body.Ops[i].DelayMs = 100 + sp.Intn(600)
+				}
+			}
+		} else if sp.Intn(3) == 0 {
 			f := RSFault{Kind: "split", AtMs: 3000 + sp.Intn(20000), ForMs: 3000 + sp.Intn(15000), Group: uint(1 + sp.Intn(1<<uint(n)-2))}
 			if k := sp.Intn(len(body.Faults)); body.Faults[k].Kind == "kill_leader" && sp.Intn(3) > 0 {
 				f.AtMs = body.Faults[k].AtMs + sp.Intn(300)
@@ -300,6 +329,13 @@ func runReplset(w *World) {
 			}
 			am := m.node.sl.arbiterManager
 			v := am.voter
+			if am.ownMember == nil || len(am.members) == 0 {
+				// told to quit the set (it is re-added later): it starts again from nothing, like a
+				// member that was never configured
+				m.lastP, m.lastC = 0, 0
+				w.probe("member_outside_the_set")
+				continue
+			}
 			if v.proposalId < m.lastP {
 				w.violate("C12", "proposal_number_decreased", "member %s (node n%d): accepted proposal number went from %d to %d", m.host, m.node.id, m.lastP, v.proposalId)
 			}
@@ -424,6 +460,7 @@ func runReplset(w *World) {
 	defer func() { ssync.OnAnyRelease = nil }()
 
 	var acked []*ReqRec
+	ackSeen := 0
 	storm := false
 	ssched.SpawnOn(0, "rs-driver", func() {
 		defer func() { done = true }()
@@ -615,6 +652,13 @@ func runReplset(w *World) {
 				at(f.AtMs)
 				switch f.Kind {
 				case "kill_leader", "kill_member":
+					if f.AfterAck > 0 {
+						n0 := ackSeen
+						for i := 0; i < 8000 && ackSeen == n0; i++ {
+							sleep(time.Millisecond)
+						}
+						sleep(time.Duration(f.AfterAck-1) * time.Millisecond)
+					}
 					var m *rsMemberRun
 					if f.Kind == "kill_leader" {
 						m = leaderOf()
@@ -715,7 +759,9 @@ func runReplset(w *World) {
 				if c.Send(rec) != nil {
 					return
 				}
-				waitReply(rec, 20*time.Second)
+				if waitReply(rec, 20*time.Second) && rec.Replies[0].Result == protocol.RESULT_SUCCED && op.TFlag&tfAck != 0 {
+					ackSeen++
+				}
 			})
 			for k := 0; k < 2500 && !fin && !ssched.NodeDead(l.node.id); k++ {
 				sleep(10 * time.Millisecond)
